@@ -57,6 +57,13 @@ hold-back state of the H264 payloader not cleared after a STAP-A (`C10-5`, `C10-
 view refusing a destination of exactly `MarshalSize()` bytes (`C03-4`), and the single-NAL-unit
 decoder of H265 accepting a header-only payload (`C14-5`).
 
+A fifth was first read as equivalent and is not: deleting the statement by which the AV1
+depacketizer drops its fragment buffer on a packet with Z=0. The reading was that the buffer is
+overwritten anyway when the packet's last element is stored; a seeded change of round 17
+(`C15-r17-2`) showed the case where nothing is stored - the last element is announced as the start
+of a fragment and has no bytes - and the C15 check now builds that frame by hand and detects the
+deletion.
+
 The campaign ran against the harness as it stood at its start; survivors in files whose checks
 were strengthened afterwards were re-run. An earlier run of the campaign had to be discarded: it
 read the originals from /repo's working tree while seeded changes were being applied there, so
